@@ -222,6 +222,36 @@ class _Scope(Contract):
             return z3.BoolVal(False)
         return z3.And(z3.BoolVal(t["name"] == "TaskGroup.create_task"), t["via"] == tg)
 
+    def inside_block_checks(self, it):
+        """What holds right after a scope was entered (sync or async): its state and metrics are current, and the
+        scope state was built once from exactly the given state (followed by the disposables' state)."""
+        st = it.st
+        g = st.ghost
+        st.check("C02-P0:state-and-metrics-of-the-scope-are-current-inside-the-block",
+                 z3.And(L.cv_is_set(it, self.cv["StateContext"]), L.cv_is_set(it, self.cv["MetricsContext"]),
+                        L.cv_value(it, self.cv["MetricsContext"]) == st.get(self.mc, "_metrics"),
+                        L.cv_value(it, self.cv["StateContext"]) == st.get(st.get(self.obj, "_state_context"), "_state")))
+        ev = [e for e in st.events if e[0] == "state-updated"]
+        if self.disp is not None:
+            st.check("C08-P5:state-yielded-by-disposables-becomes-scope-state", z3.BoolVal(len(ev) == 1))
+        if len(ev) == 1 and ev[0][1] is not None:
+            arr, lo, hi = lib.seq_view(it, ev[0][1])
+            sarr, slo, shi = lib.seq_view(it, st.get(self.obj, "_state"))
+            i = st.fresh("i", I)
+            if self.disp is None:
+                st.check("C01-P6:the-scope-state-is-built-from-exactly-the-given-state",
+                         z3.And(hi - lo == shi - slo,
+                                z3.Implies(z3.And(0 <= i, i < shi - slo), z3.Select(arr, lo + i) == z3.Select(sarr, slo + i))))
+            else:
+                darr, dlo, dhi = lib.seq_view(it, g["disp_state"])
+                st.check("C01-P6:the-scope-state-is-the-given-state-followed-by-the-disposables-state(in-order)",
+                         z3.And(hi - lo == (shi - slo) + (dhi - dlo),
+                                z3.Implies(z3.And(0 <= i, i < shi - slo), z3.Select(arr, lo + i) == z3.Select(sarr, slo + i)),
+                                z3.Implies(z3.And(0 <= i, i < dhi - dlo),
+                                           z3.Select(arr, lo + (shi - slo) + i) == z3.Select(darr, dlo + i))))
+        else:
+            st.check("C01-P6:the-scope-state-is-built-once-from-the-given-state", z3.BoolVal(False))
+
     def vars_restored(self, it, tag, prop="C02"):
         for k, var in self.cv.items():
             it.st.check(f"{prop}-{tag}:{k}-variable-is-what-it-was-before-the-block", cv_same(it, var, self.snap0[k]))
@@ -272,30 +302,7 @@ class AsyncScope(_Scope):
         tg = self.the_group(it)
         st.check("C06-P3:group-entered-and-current-inside-the-block(a-spawn-goes-into-this-scope's-group)",
                  z3.And(V.bval(st.get(tg, "$tg_entered")), self.spawns_into(it, tg)))
-        st.check("C02-P0:state-and-metrics-of-the-scope-are-current-inside-the-block",
-                 z3.And(L.cv_is_set(it, self.cv["StateContext"]), L.cv_is_set(it, self.cv["MetricsContext"]),
-                        L.cv_value(it, self.cv["MetricsContext"]) == st.get(self.mc, "_metrics"),
-                        L.cv_value(it, self.cv["StateContext"]) == st.get(st.get(self.obj, "_state_context"), "_state")))
-        ev = [e for e in st.events if e[0] == "state-updated"]
-        if self.disp is not None:
-            st.check("C08-P5:state-yielded-by-disposables-becomes-scope-state", z3.BoolVal(len(ev) == 1))
-        if len(ev) == 1 and ev[0][1] is not None:
-            arr, lo, hi = lib.seq_view(it, ev[0][1])
-            sarr, slo, shi = lib.seq_view(it, st.get(self.obj, "_state"))
-            i = st.fresh("i", I)
-            if self.disp is None:
-                st.check("C01-P6:the-scope-state-is-built-from-exactly-the-given-state",
-                         z3.And(hi - lo == shi - slo,
-                                z3.Implies(z3.And(0 <= i, i < shi - slo), z3.Select(arr, lo + i) == z3.Select(sarr, slo + i))))
-            else:
-                darr, dlo, dhi = lib.seq_view(it, g["disp_state"])
-                st.check("C01-P6:the-scope-state-is-the-given-state-followed-by-the-disposables-state(in-order)",
-                         z3.And(hi - lo == (shi - slo) + (dhi - dlo),
-                                z3.Implies(z3.And(0 <= i, i < shi - slo), z3.Select(arr, lo + i) == z3.Select(sarr, slo + i)),
-                                z3.Implies(z3.And(0 <= i, i < dhi - dlo),
-                                           z3.Select(arr, lo + (shi - slo) + i) == z3.Select(darr, dlo + i))))
-        else:
-            st.check("C01-P6:the-scope-state-is-built-once-from-the-given-state", z3.BoolVal(False))
+        self.inside_block_checks(it)
         # ------------------------------------------------------------------ body (abstracted), exit
         self.raised = []
         et, ev_, tb = self.body_exc(it)
@@ -369,6 +376,7 @@ class SyncScope(_Scope):
         st.labels.append("enter:return")
         st.check("C06-P4:sync-scopes-never-touch-the-task-group-variable",
                  cv_same(it, self.cv["TaskGroupContext"], self.snap0["TaskGroupContext"]))
+        self.inside_block_checks(it)
         et, ev_, tb = self.body_exc(it)
         try:
             ret = it.run_function(method(it, self.sinfo, self.obj, "__exit__"), CallArgs([et, ev_, tb]))
@@ -379,6 +387,9 @@ class SyncScope(_Scope):
             return
         st.labels.append("exit:return")
         self.vars_restored(it, "P4:exit")
+        fin = [e for e in st.events if e[0] == "metrics" and e[1].endswith("_finish")]
+        st.check("C02-P1:metrics-scope-is-finished-on-this-path", z3.BoolVal(len(fin) == 1))
+        st.check("C09-P8:a-sync-scope-finishes-its-metrics-exactly-once-when-left", z3.BoolVal(len(fin) == 1))
         st.check("C02-P3:does-not-suppress-the-body-exception", z3.Not(it.truthy(ret)))
         st.check("C06-P4:sync-scopes-never-touch-the-task-group-variable",
                  cv_same(it, self.cv["TaskGroupContext"], self.snap0["TaskGroupContext"]))
